@@ -195,21 +195,23 @@ async fn chan_case<M: Pat, C: Context>(sctx: C, rctx: C, c: &Case13) -> Result<(
         }
         tokio::time::timeout(STEP_T, tx.close(RecordId::from(c.k))).await.map_err(|_| "close() did not return".to_string())?;
         match tokio::time::timeout(STEP_T, pending).await {
-            Ok(Err(e)) if format!("{e:?}").contains("EndOfStream") => {}
+            // (any error: the property says the channel is closed, not which error reports it)
+            Ok(Err(_)) => {}
             Ok(x) => return Err(format!("after close({}) receive({}) returned {x:?} instead of end-of-stream", c.k, c.k)),
             Err(_) => return Err(format!("after close({}) the receiver never saw the end of the stream", c.k)),
         }
     } else {
         match tokio::time::timeout(STEP_T, rx.receive(RecordId::from(c.k))).await {
-            Ok(Err(e)) if format!("{e:?}").contains("EndOfStream") => {}
+            Ok(Err(_)) => {}
             Ok(x) => return Err(format!("all {} declared records were sent; receive({}) returned {x:?} instead of end-of-stream", c.k, c.k)),
             Err(_) => return Err(format!("all {} declared records were sent but the channel did not close (receive({}) still pending)", c.k, c.k)),
         }
         for beyond in [c.k, c.k + 1, c.k + 5] {
             let fut = std::panic::AssertUnwindSafe(tokio::time::timeout(STEP_T, tx.send(RecordId::from(beyond), val(0)))).catch_unwind();
             match fut.await {
-                Ok(Ok(Err(e))) if format!("{e:?}").contains("TooManyRecords") => {}
-                Ok(Ok(x)) => return Err(format!("send({beyond}) on a channel of {} records returned {x:?} instead of TooManyRecords", c.k)),
+                // (any error value: the property says sending beyond the count is an error)
+                Ok(Ok(Err(_))) => {}
+                Ok(Ok(x)) => return Err(format!("send({beyond}) on a channel of {} records returned {x:?} instead of an error", c.k)),
                 Ok(Err(_)) => return Err(format!("send({beyond}) on a channel of {} records blocked instead of failing", c.k)),
                 Err(_) => return Err(format!("send({beyond}) on a channel of {} records panicked instead of failing", c.k)),
             }
